@@ -162,8 +162,26 @@ impl<DataInterfaceType: DeduplicationDataInterface> FileDeduper<DataInterfaceTyp
         // Chunks before this index are part of a dedup hit that fragmentation prevention rejected.
         let mut defrag_rejected_until = 0;
 
+        // A shard hit whose first chunks were consumed by a match against the xorb being built; the rest of
+        // it is still known to be stored.  (first chunk index, number of chunks, entry)
+        let mut partly_consumed_hit: Option<(usize, usize, FileDataSequenceEntry)> = None;
+
         while cur_idx < chunks.len() {
             let mut dedupe_query = deduped_blocks[cur_idx].take();
+
+            if dedupe_query.is_none() {
+                if let Some((hit_idx, hit_n, hit_fse)) = partly_consumed_hit.take() {
+                    if hit_idx < cur_idx && cur_idx < hit_idx + hit_n {
+                        // Use the remaining part of that hit.
+                        let n_skipped = cur_idx - hit_idx;
+                        let n_bytes: usize = chunks[cur_idx..hit_idx + hit_n].iter().map(|c| c.data.len()).sum();
+                        let mut fse = hit_fse;
+                        fse.chunk_index_start += n_skipped as u32;
+                        fse.unpacked_segment_bytes = n_bytes as u32;
+                        dedupe_query = Some((hit_n - n_skipped, fse));
+                    }
+                }
+            }
 
             if dedupe_query.is_none() {
                 // In this case, do a second query against the local xorb to see if we're just repeating previous
@@ -184,6 +202,15 @@ impl<DataInterfaceType: DeduplicationDataInterface> FileDeduper<DataInterfaceTyp
 
                     // We found one or more chunk hashes present
                     self.add_file_data_sequence_entry(fse, n_deduped);
+
+                    // A shard hit that starts inside the range just consumed may extend beyond it.
+                    for idx in cur_idx + 1..cur_idx + n_deduped {
+                        if let Some((n, fse)) = deduped_blocks[idx].take() {
+                            if idx + n > cur_idx + n_deduped {
+                                partly_consumed_hit = Some((idx, n, fse));
+                            }
+                        }
+                    }
 
                     cur_idx += n_deduped;
                     continue;
